@@ -92,3 +92,18 @@ func (e *Engine) packViews(st *State, sv *StructV, pk *Term) {
 	}
 	walk(sv, "", 0)
 }
+
+func init() {
+	reg("github.com/cosmos/cosmos-sdk/codec/types::(*Any).GetCachedValue", "pure: the unpacked value cached in the Any: any_cached(a) (an opaque interface value, a function of the Any)", func(e *Engine, st *State, fr *Frame, a []Val, fn *ssa.Function, c *ssa.CallCommon) ([]Val, []*State) {
+		e.C.DeclareFun("any_cached", []Sort{"Obj"}, "Obj")
+		var in *Term
+		if o := opaqueOf(a[0]); o != nil {
+			in = o
+		} else {
+			in = e.packVal(st, a[0])
+		}
+		o := mk("Obj", "(any_cached "+in.T+")")
+		o.GoT = fn.Signature.Results().At(0).Type()
+		return []Val{o}, nil
+	})
+}
